@@ -28,7 +28,7 @@ ASSUMPTIONS = [
 ]
 KINDS = ["item", "item-ops", "$and", "$or", "$not", "$and_any_order", "nested-times", "nested-times"]
 SHAPES = ["sandwich", "sandwich", "sandwich", "free", "meta", "meta"]
-FLOORS = {"shape=sandwich": 0.3, "shape=meta": 0.2, "edge=min": 0.05, "edge=max": 0.05, "edge=max+1": 0.04, "edge=min-1": 0.03}
+FLOORS = {"shape=sandwich": 0.3, "shape=meta": 0.2, "edge=min": 0.05, "edge=max": 0.05, "edge=max+1": 0.04, "edge=min-1": 0.03, "rel=macro-plain-use": 0.015}
 for _k in KINDS:
     FLOORS[f"kind={_k}"] = 0.06
 
@@ -207,9 +207,26 @@ def cases(draw):
         assume(_names_ok(pattern))
         return {"shape": shape, "kind": kind, "listing": L, "pattern": pattern, "edge": edge, "times": t, "r": r, "flags": list(full), "ext": ext}
     # meta
-    rel = draw(st.sampled_from(["unroll", "unroll", "range-eq-int", "spelling", "operand-deref", "operand-or", "operand-not"]))
+    rel = draw(st.sampled_from(["unroll", "unroll", "range-eq-int", "spelling", "operand-deref", "operand-or", "operand-not", "macro-plain-use", "macro-plain-use", "macro-plain-use"]))
     n_ = draw(st.integers(0, 4))
-    if rel == "unroll":
+    macros = None
+    if rel == "macro-plain-use" and (kind not in ("item", "item-ops", "$or", "$and") or not usable):
+        rel = "unroll"
+    if rel == "macro-plain-use":
+        # an item without `times` is bounds (1,1) - also when it is a macro use and ANOTHER use of the same macro carries `times`:
+        # [A, @m{times t}, @m, B] against the same rule with the plain use written out by hand (the macro still defined and used by
+        # the first item, whatever `times` on an invocation means); run lengths where (1,1) and an inherited {lo,hi} part
+        macros = [{"name": "@ytimes_", "pattern": [copy.deepcopy(node)]}]
+        reps = draw(st.sampled_from(sorted({2, lo + 1, hi + 1, 2 * lo, 2 * hi, lo + hi, 1})))
+        run = []
+        for _ in range(reps):
+            run.extend(draw(st.sampled_from(usable)))
+        L = _mk_listing(draw, pre + [A] + run + [B] + post)
+        inv = {"@ytimes_": {"times": t}} if spelling == "inside" else {"@ytimes_": [], "times": t} if spelling == "sibling" else {"times": t, "@ytimes_": []}
+        plain_first = draw(st.booleans())
+        p1 = [dA] + (["@ytimes_", inv] if plain_first else [inv, "@ytimes_"]) + [dB]
+        p2 = [dA] + ([copy.deepcopy(node), inv] if plain_first else [inv, copy.deepcopy(node)]) + [dB]
+    elif rel == "unroll":
         p1 = [dA, attach(node, n_ if draw(st.booleans()) else {"min": n_, "max": n_}, spelling), dB]
         p2 = [dA] + [copy.deepcopy(node) for _ in range(n_)] + [dB]
     elif rel == "range-eq-int":
@@ -244,7 +261,10 @@ def cases(draw):
         p1 = [dA, {"vfoo": [tn, "c" if tail_norm == "%rcx" else "0x1"]}, dB]
         p2 = [dA, {"vfoo": [copy.deepcopy(opnode) for _ in range(n_)] + ["c" if tail_norm == "%rcx" else "0x1"]}, dB]
     assume(_names_ok(p1) and _names_ok(p2))
-    return {"shape": shape, "kind": kind if rel in ("unroll", "range-eq-int") else rel, "rel": rel, "listing": L, "pattern": p1, "pattern2": p2, "edge": "meta", "n": n_, "flags": list(full)}
+    out = {"shape": shape, "kind": kind if rel in ("unroll", "range-eq-int") else rel, "rel": rel, "listing": L, "pattern": p1, "pattern2": p2, "edge": "meta", "n": n_, "flags": list(full)}
+    if macros:
+        out["macros"] = macros
+    return out
 
 
 def _names_ok(node, operand=False):
@@ -255,13 +275,15 @@ def _names_ok(node, operand=False):
             if k in ("$or", "$and", "$and_any_order", "$not"):
                 if not _names_ok(v, operand):
                     return False
-            elif k in ("$deref", "times"):
+            elif k in ("$deref", "times") or str(k) == "@ytimes_":
                 continue
             else:
                 if not lit_ok(str(k), operand=False):
                     return False
                 if isinstance(v, list) and not _names_ok(v, True):
                     return False
+        return True
+    if node == "@ytimes_":
         return True
     return lit_ok(str(node), operand=operand)
 
@@ -290,8 +312,8 @@ def evaluate(case):
         ev.sample = {"shape": shape, "pattern": case["pattern"], "stream": stream_sample(L), "expected_found": exp, "r": case.get("r")}
         return ev
     text = render(att_view(L))
-    r1 = jasm_io.match(jasm_io.make_doc(case["pattern"], mn_arg, op_arg), text, mode="list", search="all")
-    r2 = jasm_io.match(jasm_io.make_doc(case["pattern2"], mn_arg, op_arg), text, mode="list", search="all")
+    r1 = jasm_io.match(jasm_io.make_doc(case["pattern"], mn_arg, op_arg, macros=case.get("macros")), text, mode="list", search="all")
+    r2 = jasm_io.match(jasm_io.make_doc(case["pattern2"], mn_arg, op_arg, macros=case.get("macros")), text, mode="list", search="all")
     ev.subcases = 2
     ev.tags.append(f"rel={case['rel']}")
     if "inconclusive" in (r1[0], r2[0]):
